@@ -459,6 +459,10 @@ func c45FixLen(b []byte) []byte {
 
 func TestC45(t *testing.T) {
 	rec := ev.New("C45", "per message type (clientHello, serverHello, certificate, serverKeyExchange, certificateStatus, serverHelloDone, clientKeyExchange, finished, nextProto, certificateRequest, certificateVerify, newSessionTicket, sessionState): structured values filled like the handshake code does; arbitrary byte strings and marshalled messages mutated by bit flip / byte set / length nudge / truncate / extend / duplicate tail / zeroed length (with and without re-fixed outer length), parsed from an exactly-sized buffer and in front of canary bytes. non-trivial: structured message with at least one non-empty variable-length vector; every byte-string case; distinct by wire bytes")
+	if w, ok := replayWitness(t); ok {
+		replayC45(t, rec, w)
+		return
+	}
 	if dir := os.Getenv("VERIF_WRITE_CORPUS"); dir != "" {
 		c45WriteCorpus(t, dir)
 		return
